@@ -95,7 +95,7 @@ package internal
 //@ -- errors a handler may pass on: made by the backend, by the environment (response writer / encoder),
 //@ -- or a 4xx built by the library itself
 //@ spec fromDecoder(e error) bool
-//@ spec okErr(e error) bool = fromBackend(e) || fromEnv(e) || (400 <= httpCode(e) && httpCode(e) < 500)
+//@ spec okErr(e error) bool = beErr(e) || fromEnv(e) || (400 <= httpCode(e) && httpCode(e) < 500)
 //@ func internal.DecodeXMLRequest(r, v) (err)
 //@   requires R1: validReq(r)
 //@   decodes v
@@ -116,7 +116,7 @@ package internal
 //@ func internal.IsNotFound(err) (r)
 //@   ensures N1: r <==> httpCode(err) == 404
 //@ func internal.NewMultiStatus(resps) (ms)
-//@   ensures M1: ms != nil && fresh(ms) && ms.Responses == resps
+//@   ensures M1: ms != nil && fresh(ms) && ms.Responses == resps && len(ms.Responses) == len(resps)
 
 //@ -- client side: what is put into a Prop element for encoding (T-xml transports it)
 //@ func internal.EncodeProp(values) (p, err)
@@ -158,12 +158,15 @@ package internal
 //@ func internal.ServeError(w, err)
 //@   requires R1: w != nil && err != nil
 //@   -- C17: no error that carries a host path may reach the client
-//@   requires NOLEAK: !hostPath(err)
+//@   -- (leakTracked: a LocalFileSystem is being served; the CalDAV / CardDAV handlers have no host path to disclose)
+//@   requires NOLEAK: leakTracked ==> !hostPath(err)
 //@   -- http.ResponseWriter.WriteHeader panics on a code outside 100..999 (C13)
 //@   requires CODE: isHTTP(err) ==> 100 <= httpCode(err) && httpCode(err) <= 999
 //@   allocates
 //@   assigns ghost:rstatus, ghost:hv
+//@   ghostset servedErr : err
 //@   ensures S1: rstatus == rsSet(old(rstatus), w, isHTTP(err) ? httpCode(err) : 500)
+//@   ensures S3: servedErr == err
 //@   ensures S2: forall g http.Header, k string :: g != respHeader(w) ==> hget(hv, g, k) == old(hget(hv, g, k))
 //@ func internal.parseDestination(h) (dest, err)
 //@   ensures P1: err == nil <==> hget(hv, h, "Destination") != "" && urlParseOk(hget(hv, h, "Destination"))
